@@ -323,7 +323,8 @@ class Check:
         if self.violations:
             os.makedirs(REPLAY, exist_ok=True)
             rc = 1
-            for i, (what, wit) in enumerate(self.violations[:20]):
+            log("%d violation(s); writing up to 5 witnesses" % len(self.violations))
+            for i, (what, wit) in enumerate(self.violations[:5]):
                 path = os.path.join(REPLAY, "%s-%s-%d-%d.json" % (self.prop, self.tier, self.seed, i))
                 with open(path, "w") as f:
                     json.dump({"property": self.prop, "what": what, "witness": wit}, f, indent=1, default=str)
